@@ -376,9 +376,18 @@ class CaseGen:
             if method == "linear" and r.random() < 0.4:
                 return any_weights(r, M), "list-any"
             return convex_weights(r, M, dy), "list-convex" + ("" if dy else "-nondyadic")
-        names = [f"t{j}" for j in range(M)]
+        # dict keys are only labels: the code pairs the VALUES with the triangles positionally (insertion order).
+        # Use names whose insertion order differs from their sorted order (half of the time exactly reversed).
+        pool = ["paid", "incurred", "bf", "reported", "zeta", "alpha", "m1", "m0", "Tri", "_x"]
+        names = r.sample(pool, M)
+        if r.random() < 0.5:
+            names = sorted(names, reverse=True)
         if form == "dict_global":
             w = convex_weights(r, M, dy)
+            for _ in range(20):
+                if M == 1 or len(set(w)) == M:
+                    break
+                w = convex_weights(r, M, dy and M < 4)     # pairwise different entries (asymmetric)
             if r.random() < 0.5:
                 return {n: x for n, x in zip(names, w)}, "dict-global-scalar"
             return {n: np.array([x]) for n, x in zip(names, w)}, "dict-global-array"
@@ -567,6 +576,7 @@ def direct_oracles(case, res, rec, tol):
     wl = ref_weight_list(weights, M, n)
     convex_all = True
     draws = {(i, f): d for i, f, d, _ in rec.draws}
+    probs = {(i, f): key[0] for i, f, _, key in rec.draws}
     for i, (o, c0) in enumerate(zip(out.cells, t0.cells)):
         if strict_hdr(o) != strict_hdr(c0):
             fails.append(f"cell {i}: coordinates/metadata differ from the first triangle's cell")
@@ -611,6 +621,11 @@ def direct_oracles(case, res, rec, tol):
                     fails.append(f"cell {i} field {f}: mixture result has wrong shape")
                     continue
                 d = draws.get((i, f))
+                p = probs.get((i, f))
+                if p is not None and (len(p) != M or any(abs(Fraction(a) - b) > Fraction(1, 10**12) for a, b in zip(p, w))):
+                    fails.append(f"cell {i} field {f}: the generator was given probabilities {list(p)} but the weights of the "
+                                 f"triangles (in list order) are {[float(x) for x in w]}")
+                    continue
                 for k in range(S):
                     g = Fraction(float(got[k]))
                     cand = [v[k] for v in vs]
